@@ -1,6 +1,7 @@
 import MxModel.Proofs.ExecSoundTop
 import MxModel.Proofs.ExecTaint
 import MxModel.Proofs.ExecGhostOps
+import MxModel.Proofs.ExecLog
 import MxModel.Exec.Expr
 /-!
 # C01 – memoisation is transparent
@@ -146,6 +147,94 @@ theorem held_never_reexecuted (ef : Node → St → Res × St) (n : Node) (s : S
   · unfold St.addEdge St.addNode; simp only []; repeat' split
     all_goals rfl
   · rfl
+
+/-! ### computed once: the execution log
+
+`St.log` (ghost) gets an entry for every formula execution (`CallStack.append`).  Regime: the graph
+invariant `GI` of C08 (terminating programs, `Ranked`), idle executor – every reachable state. -/
+
+/-- **While an element holds a value its formula is never run**: the executions `new` that a
+top-level call makes – at any depth, hits and misses, failed or not – contain no element of a cached
+cells that held a value when the call started. -/
+theorem held_elements_never_executed (lt : Node → Node → Prop) (ho : StrictOrder lt) (hr : Ranked env lt)
+    (s : St) (g : GI env lt s) (hst : s.stack = []) (hidx : s.idx = []) (n : Node) :
+    ∃ new, (evalTop env n s).2.log = new ++ s.log ∧
+      ∀ m ∈ new, env.cached m.1 = true → lookup s.data m = none := by
+  obtain ⟨new, rb, h1, h2, _⟩ := evalTop_log ho hr g hst hidx n
+  exact ⟨new, h1, h2⟩
+
+/-- **Every execution either fails or is THE execution that stores the element's value**: for an
+element `m` of a cached cells, the number of its executions during one top-level call equals the
+number of its frames that were rolled back (`rb`: `_eval_formula`'s roll-back list, before
+`_start_exec` clears it) plus one if `m` acquired its value in this call.  (A failed element holds
+nothing; a handler or a `finally` block that calls it again executes it again.) -/
+theorem every_execution_fails_or_stores (lt : Node → Node → Prop) (ho : StrictOrder lt) (hr : Ranked env lt)
+    (s : St) (g : GI env lt s) (hst : s.stack = []) (hidx : s.idx = []) (n : Node) :
+    ∃ (new : List Node) (rb : List (Node × Nat)), (evalTop env n s).2.log = new ++ s.log ∧
+      ((if env.cached n.1 = true then lookup s.data n else none) = none →
+        (runN env (env.maxdepth + 1) n s).2.rolledback = s.rolledback ++ rb) ∧
+      ∀ m, env.cached m.1 = true →
+        new.count m = (rb.map (·.1)).count m + newly s (evalTop env n s).2 m := by
+  obtain ⟨new, rb, h1, _, h3, h4, _⟩ := evalTop_log ho hr g hst hidx n
+  exact ⟨new, rb, h1, h4, h3⟩
+
+/-- **Computed once**: when formulas handle no failure (`NoCatchEnv`) and the call returns, no element
+of a cached cells is executed twice, and the executed ones are exactly those that acquired their
+value in this call. -/
+theorem computed_once_nocatch (lt : Node → Node → Prop) (ho : StrictOrder lt) (hr : Ranked env lt)
+    (hnc : NoCatchEnv env) (s : St) (g : GI env lt s) (hst : s.stack = []) (hidx : s.idx = []) (n : Node)
+    (v : Val) (hv : (evalTop env n s).1 = .ok v) :
+    ∃ new, (evalTop env n s).2.log = new ++ s.log ∧
+      ∀ m, env.cached m.1 = true → new.count m ≤ 1 ∧
+        (m ∈ new ↔ lookup s.data m = none ∧ (lookup (evalTop env n s).2.data m).isSome = true) := by
+  obtain ⟨new, rb, h1, _, h3, _, h5⟩ := evalTop_log ho hr g hst hidx n
+  have hrb : rb = [] := h5 hnc v hv
+  subst hrb
+  refine ⟨new, h1, fun m hc => ?_⟩
+  have := h3 m hc
+  simp only [List.map_nil, List.count_nil, Nat.zero_add] at this
+  unfold newly at this
+  constructor
+  · rw [this]; split <;> omega
+  · rw [← List.count_pos_iff, this]
+    split
+    · rename_i h; simp [h]
+    · rename_i h; simp [h]
+
+/-- **…across a history**: in every state reachable by the thirteen-operation language of C02, an
+evaluation executes only elements that hold no value at that moment – an element that was computed
+is executed again only after an edit or a clear discarded its value. -/
+theorem executed_again_only_after_cleared (lt : Node → Node → Prop) (ho : StrictOrder lt) (env0 : Env)
+    (hw0 : C02.WF env0 lt) (ops : List C02.Op) (hadm : C02.Admissible lt (env0, {}) ops) (n : Node) :
+    ∃ new, (evalTop (C02.run (env0, {}) ops).1 n (C02.run (env0, {}) ops).2).2.log =
+        new ++ (C02.run (env0, {}) ops).2.log ∧
+      ∀ m ∈ new, (C02.run (env0, {}) ops).1.cached m.1 = true → lookup (C02.run (env0, {}) ops).2.data m = none := by
+  obtain ⟨hci, hw⟩ := C02.run_ci lt ho ops (env0, {}) hw0 (CI.empty env0 lt) hadm
+  exact held_elements_never_executed _ lt ho hw.ranked _ hci.gi hci.quiet.stack hci.quiet.idx n
+
+/-! Non-vacuity.  `c0 = c1() + c1()`, `c1 = 2`: `c1` is executed once, the second call is a hit.
+`c2 = try: c3() except: (try: c3() except: 0)`, `c3 = raise`: `c3` is executed twice – both frames are
+rolled back, it never holds a value – which is why "executed at most once" needs `NoCatch`. -/
+def oCells : CellId → Option Expr
+  | 0 => some (.add (.call 1 []) (.call 1 []))
+  | 1 => some (.lit 2)
+  | 2 => some (.try_ (.call 3 []) .all (.try_ (.call 3 []) .all (.lit 0)))
+  | 3 => some (.raise kValue)
+  | _ => none
+
+def oEnv : Env where
+  formula := fun n => match oCells n.1 with
+    | some e => formulaOf (fun c => (oCells c).map (fun _ => 0)) e n.2
+    | none => .raise (.user kName)
+  cached := fun _ => true
+  allowNone := fun _ => false
+  refs := fun _ => .none
+  maxdepth := 10
+
+example : (evalTop oEnv (0, []) {}).1 = .ok (.int 4) ∧ (evalTop oEnv (0, []) {}).2.log = [(1, []), (0, [])] ∧
+    (evalTop oEnv (2, []) {}).1 = .ok (.int 0) ∧
+    (evalTop oEnv (2, []) {}).2.log = [(3, []), (3, []), (2, [])] ∧
+    ((runN oEnv 11 (2, []) {}).2.rolledback.map (·.1)) = [(3, []), (3, [])] := by decide
 
 /-! ### the full statement is false: a formula that catches the depth-limit error
 
